@@ -21,9 +21,10 @@
    some node executions ask for an interrupt (compose.InterruptAndRerun, also through a nested
    graph); an interrupted run is followed by a run with the same checkpoint id until a run is
    not interrupted.  Observed: per run what CaseGraph observes.  The model gives the sequence of
-   graphs these runs execute ([run_seq] of Model/CallbacksResume.v: the nodes that completed are
-   not executed again, the interrupted ones are); the number of runs must agree and every run is
-   compared like a CaseGraph.
+   graphs these runs execute ([run_seqf] of Model/CallbacksResume.v: the nodes that completed are
+   not executed again, the interrupted ones are; the first run is called with [opts], the runs
+   that resume it with [opts2]); the number of runs must agree and every run is compared like a
+   CaseGraph.
 
    CaseStream: one stream payload handed to n-1 handlers and the flow through the public
    callbacks.OnStartWithStreamInput / OnEndWithStreamOutput; afterwards the harness performs a
@@ -89,7 +90,7 @@ Inductive ccase : Type :=
             (obs : list (N * list (N * N)) * list (N * list N))
     (* second component: per unit, per invocation, the payload label: 0 the payload the unit
        consumed, 1 the one it produced, 2 the error it ended with, 8 not determined *)
-| CaseRuns (globals : list handler) (needs : list (handler * list N)) (opts : list copt)
+| CaseRuns (globals : list handler) (needs : list (handler * list N)) (opts opts2 : list copt)
            (is_stream : bool) (g : ukey) (ginf : info) (plan : list (list rnode))
            (obs : list (list (N * list (N * N)) * list (N * list N)))
 | CaseStream (globals locals : list handler) (t : timing) (order : list handler)
@@ -156,9 +157,10 @@ Definition bad (c : ccase) : bool :=
             && list_eqb (pay_eqb 0) (map snd (p_log (prun true (mk_world globals needs) (numbered ops)))) pobs)
   | CaseGraph globals needs opts is_stream g ginf stages obs =>
       negb (graph_run_ok (mk_world globals needs) is_stream g ginf opts stages obs)
-  | CaseRuns globals needs opts is_stream g ginf plan obs =>
+  | CaseRuns globals needs opts opts2 is_stream g ginf plan obs =>
+      (* the first run is called with opts, the runs that resume it with opts2 *)
       negb (runs_ok (mk_world globals needs) is_stream g ginf
-                    (run_seq (S (total_intr plan)) opts plan) obs)
+                    (run_seqf (S (total_intr plan)) (two_opts opts opts2) plan) obs)
   | CaseStream globals locals t order src acts obs closed =>
       (* On: the selected handlers in invocation order; OnWithStreamHandle: one copy each, one more for the flow *)
       let w := mk_world globals [] in
@@ -180,7 +182,7 @@ Definition model_script (globals : list handler) (needs : list (handler * list N
 Definition model_graph (globals : list handler) (needs : list (handler * list N)) (opts : list copt)
            (is_stream : bool) (g : ukey) (ginf : info) (stages : list (list gnode)) :=
   by_info (st_log (run_script true (mk_world globals needs) (graph_ops is_stream g ginf opts stages))).
-Definition model_runs (globals : list handler) (needs : list (handler * list N)) (opts : list copt)
+Definition model_runs (globals : list handler) (needs : list (handler * list N)) (opts opts2 : list copt)
            (is_stream : bool) (g : ukey) (ginf : info) (plan : list (list rnode)) :=
   map (fun r => by_info (st_log (run_script true (mk_world globals needs) (graph_ops is_stream g ginf (fst r) (snd r)))))
-      (run_seq (S (total_intr plan)) opts plan).
+      (run_seqf (S (total_intr plan)) (two_opts opts opts2) plan).
